@@ -58,6 +58,8 @@ pub struct OutputRec {
     pub result: Result<Value, String>,
     /// the delivery to the destination failed (injected)
     pub delivery_failed: bool,
+    /// logical time at which the output() call completed (t = when it started)
+    pub t_done: u64,
 }
 
 #[derive(Clone, Debug)]
@@ -239,7 +241,11 @@ impl PolicyClient for GatedClient {
             Err(e) => Err(output_err_kind(&e)),
         };
         let failed = self.shared.fail_outputs;
-        self.shared.outputs.lock().unwrap().push(OutputRec { t, comp: self.comp, party: self.me, url: to.to_string(), result, delivery_failed: failed });
+        // a real client suspends while the request is on its way
+        tokio::task::yield_now().await;
+        tokio::task::yield_now().await;
+        let t_done = self.shared.tick();
+        self.shared.outputs.lock().unwrap().push(OutputRec { t, comp: self.comp, party: self.me, url: to.to_string(), result, delivery_failed: failed, t_done });
         if failed { Err(ClientErr::Injected) } else { Ok(()) }
     }
 }
@@ -882,7 +888,7 @@ pub fn record_json(r: &RunRecord) -> Value {
     json!({
         "schedule": r.schedule.iter().map(call).collect::<Vec<_>>(),
         "injected": r.injected.iter().map(call).collect::<Vec<_>>(),
-        "outputs": r.outputs.iter().map(|o| json!({"t": o.t, "comp": o.comp, "party": o.party, "result": match &o.result { Ok(v) => json!({"Ok": v}), Err(e) => json!({"Err": e}) }, "delivery_failed": o.delivery_failed})).collect::<Vec<_>>(),
+        "outputs": r.outputs.iter().map(|o| json!({"t": o.t, "comp": o.comp, "party": o.party, "result": match &o.result { Ok(v) => json!({"Ok": v}), Err(e) => json!({"Err": e}) }, "delivery_failed": o.delivery_failed, "t_done": o.t_done})).collect::<Vec<_>>(),
         "coordination_rpcs": r.rpcs.iter().filter(|x| x.kind != RpcKind::Msg && x.fate != "unused").map(|x| json!({"t_issue": x.t_issue, "t_release": x.t_release, "t_done": x.t_done, "comp": x.comp, "from": x.from, "to": x.to, "kind": format!("{:?}", x.kind), "fate": x.fate, "result": x.result})).collect::<Vec<_>>(),
         "mpc_msg_rpcs": r.rpcs.iter().filter(|x| x.kind == RpcKind::Msg && x.fate != "unused").count(),
         "actors": r.actors.iter().map(|(c, p, f, pa)| json!({"comp": c, "party": p, "stopped": f, "panicked": pa})).collect::<Vec<_>>(),
